@@ -27,6 +27,9 @@ def primOf (s : String) : Option Prim :=
   | "i8" => some (.int 8) | "i16" => some (.int 16) | "i32" => some (.int 32) | "i64" => some (.int 64) | "i" => some (.int 64)
   | "u8" => some (.uint 8) | "u16" => some (.uint 16) | "u32" => some (.uint 32) | "u64" => some (.uint 64) | "u" => some (.uint 64)
   | "f32" => some (.float 32) | "f64" => some (.float 64)
+  -- named number types of the harness (`type c17NI int` …): the same kinds
+  | "ni" => some (.int 64) | "ni16" => some (.int 16) | "nu32" => some (.uint 32)
+  | "nf" => some (.float 64) | "nf32" => some (.float 32)
   | _ => none
 
 def splitOnC (c : Char) : List Char → List (List Char)
@@ -213,7 +216,9 @@ def obs? (toks : List String) (key : String) : Option String :=
   toks.findSome? fun t => if t.startsWith (key ++ "=") then some (t.drop (key.length + 1)).toString else none
 
 /-- nil map ≡ empty map: classifies a difference with encoding/json. -/
-def normNil (s : String) : String := s.replace "~m" "{}"
+def normNil (s : String) : String :=
+  -- a pointer (or pointer to pointer) to the empty map that go-zero stores for an absent map field ≡ nil pointer
+  (((s.replace "~m" "{}").replace "&&{}" "~p").replace "&{}" "~p")
 
 mutual
 /-- the environment the harness sets for a type: a variable `C17E_<value>` holds `<value>`, every other is unset. -/
@@ -238,6 +243,41 @@ def eitherF32 (f : Opts → String) (o : Opts) (impl : Option String) : String :
 
 structure St where
   fs : Option Fields := none
+  /-- the file-level loads of the section so far (one process): UseEnv of the previous call -/
+  prevEnv : Option Bool := none
+  nFload : Nat := 0
+  /-- every decoding op of the section so far with its observation: the same op later must observe the same -/
+  seen : List (String × String) := []
+
+mutual
+/-- the type lies in the modelled family: every pointer is a one-level pointer to a primitive or to a struct.
+Types outside (`**T`, `*[]T`, `*map[string]T`) are generated too: for them only the monitor clauses run (format
+independence, reader = bytes, case-insensitivity, agreement with encoding/json, no aliasing), on the observations. -/
+def tyInModel : Ty → Bool
+  | .prim _ => true
+  | .ptr (.prim _) => true
+  | .ptr (.struct fs) => fieldsInModel fs
+  | .ptr _ => false
+  | .slice t => tyInModel t
+  | .map t => tyInModel t
+  | .struct fs => fieldsInModel fs
+def fieldsInModel : Fields → Bool
+  | .nil => true
+  | .cons _ t rest => tyInModel t && fieldsInModel rest
+end
+
+
+mutual
+def tyHasPtrElem : Ty → Bool
+  | .prim _ => false
+  | .ptr t => tyHasPtrElem t
+  | .slice t => t.isPtr || tyHasPtrElem t
+  | .map t => t.isPtr || tyHasPtrElem t
+  | .struct fs => fieldsHavePtrElem fs
+def fieldsHavePtrElem : Fields → Bool
+  | .nil => false
+  | .cons _ t rest => tyHasPtrElem t || fieldsHavePtrElem rest
+end
 
 def checkTok (r : Report) (s : Section) (l : Line) (key : String) (model : String) : Report :=
   match obs? l.obs key with
@@ -248,6 +288,23 @@ def checkTok (r : Report) (s : Section) (l : Line) (key : String) (model : Strin
 
 def classOf (s : String) : String :=
   if s.startsWith "ok:" then "ok" else s
+
+/-- correspondence with the model only for types of the modelled family. -/
+def checkTokM (inModel : Bool) (r : Report) (s : Section) (l : Line) (key : String) (model : String) : Report :=
+  if inModel then checkTok r s l key model else r.addCover "outside-model-monitored-only"
+
+/-- **no two distinct entries of a decoded value alias the same cell**: the harness walks every decoded value and
+reports the first pair of positions holding the same pointer / slice backing array / map (`AL=`).  The model is a tree
+of values (`genMapSite = fillSliceSite = .perEntry`): it predicts `AL=-`. -/
+def aliasMonitor (r : Report) (s : Section) (l : Line) : Report :=
+  match obs? l.obs "AL" with
+  | none => r.mismatch s.idx l.idx "AL=-" "AL missing"
+  | some "-" => r.addCover "alias-checked"
+  | some a =>
+    (r.mismatch s.idx l.idx "AL=-" s!"AL={a}").violation s.idx l.idx
+      s!"aliased-entries class=alias first=[{a}] two distinct entries of one decoded value hold the same pointer / backing array / map (decoder call #n of the op: path~path)"
+
+def dropAL (toks : List String) : List String := toks.filter fun t => !t.startsWith "AL="
 
 /-- the TOML front end: the harness renders TOML only for tables without null (`skip`); go-toml rejects integers
 outside int64 (`err`). -/
@@ -318,7 +375,8 @@ def runLoad (r : Report) (s : Section) (l : Line) (fs : Fields) (j : J) (j2 : Op
   -- keys colliding up to case: the pinned loader is nondeterministic there; such documents are checked by `cload`
   let coll := !(noCaseCollision j)
   if coll then r := r.addCover "load-collision-unchecked"
-  let ck (r : Report) (key model : String) : Report := if coll then r else checkTok r s l key model
+  let im := tyInModel (.struct fs)
+  let ck (r : Report) (key model : String) : Report := if coll then r else checkTokM im r s l key model
   r := ck r "LJ" mLJ
   r := ck r "LY" mLY
   r := ck r "LT" mLT
@@ -332,13 +390,14 @@ def runLoad (r : Report) (s : Section) (l : Line) (fs : Fields) (j : J) (j2 : Op
   let ou : Opts := { env := envOfTy (.struct fs) }
   let mU := eitherF32 (fun o => printRes (unmarshalWith o fs j)) ou (obs? l.obs "U")
   if mU ≠ printRes (unmarshalWith ou fs j) then r := r.addCover "pinned-float32-double-rounding"
-  r := checkTok r s l "U" mU
+  r := checkTokM im r s l "U" mU
   r := r.addCover ("unmarshal-" ++ classOf mU)
   if hasEmbeddedDeep (.struct fs) ∨ tyHasStringOpt (.struct fs) then r := r.addCover "std-embedded-not-modelled"
   else
     let mS := printRes (stdDecode fs j)
-    r := checkTok r s l "S" mS
+    r := checkTokM im r s l "S" mS
     r := r.addCover ("std-" ++ classOf mS)
+  r := aliasMonitor r s l
   -- monitor, on the implementation's observations only
   let np (x : String) : String := if x = "panic" then "err" else x     -- a panic is a failure verdict
   let oLJ := np ((obs? l.obs "LJ").getD "?")
@@ -357,7 +416,7 @@ def runLoad (r : Report) (s : Section) (l : Line) (fs : Fields) (j : J) (j2 : Op
     if noNull j ∧ oLJ ≠ oLY then r := r.addCover "json-yaml-differ-out-of-scope"
   match j2 with
   | some j2 =>
-    if recasedTy (.struct fs) j j2 then
+    if recasedTy (derefAll (.struct fs)) j j2 then
       if noCaseCollision j ∧ noCaseCollision j2 then
         r := r.addCover (if j = j2 then "recase-identical" else "recase-checked")
         let oRJ := np ((obs? l.obs "RJ").getD "?")
@@ -381,12 +440,14 @@ def runMunm (r : Report) (s : Section) (l : Line) (fs : Fields) (bits : Nat) (j 
   let mJ := eitherF32 (fun o => printRes (unmarshalWith o fs j)) o (obs? l.obs "MJB")
   let mY := eitherF32 (fun o => printRes (unmarshalYaml o fs (embY j))) o (obs? l.obs "MYB")
   let mT := eitherF32 (fun o => tomlFront j (fun t => printRes (unmarshalToml o fs t))) o (obs? l.obs "MTB")
-  r := checkTok r s l "MJB" mJ
-  r := checkTok r s l "MJR" mJ
-  r := checkTok r s l "MYB" mY
-  r := checkTok r s l "MYR" mY
-  r := checkTok r s l "MTB" mT
-  r := checkTok r s l "MTR" mT
+  let im := tyInModel (.struct fs)
+  r := checkTokM im r s l "MJB" mJ
+  r := checkTokM im r s l "MJR" mJ
+  r := checkTokM im r s l "MYB" mY
+  r := checkTokM im r s l "MYR" mY
+  r := checkTokM im r s l "MTB" mT
+  r := checkTokM im r s l "MTR" mT
+  r := aliasMonitor r s l
   r := r.addCover s!"munm-opts-{bits}"
   r := r.addCover ("munm-" ++ classOf mJ)
   if o.canon ∧ mJ.startsWith "ok:" ∧ printRes (unmarshalWith { o with canon := false } fs j) ≠ mJ then
@@ -413,7 +474,7 @@ def runMunm (r : Report) (s : Section) (l : Line) (fs : Fields) (bits : Nat) (j 
     r := r.addCover (if noNull j then "mapping-excluded-noncanonical-number" else "mapping-excluded-null")
   if bits = 0 then
     if hasEmbeddedDeep (.struct fs) ∨ tyHasStringOpt (.struct fs) then r := r.addCover "std-embedded-not-modelled"
-    else r := checkTok r s l "S" (printRes (stdDecode fs j))
+    else r := checkTokM im r s l "S" (printRes (stdDecode fs j))
     r := stdMonitor r s l fs j "MJB" "json-bytes"
     if inScope j then
       r := stdMonitor r s l fs j "MYB" "yaml-bytes"
@@ -426,6 +487,8 @@ def runCload (r : Report) (s : Section) (l : Line) (fs : Fields) (j : J) : Repor
   let oc : Opts := { confOpts with env := envOfTy (.struct fs) }
   let g (k : String) : String := (obs? l.obs k).getD "?"
   r := r.addCover (if noCaseCollision j then "cload-no-collision" else "cload-collision")
+  let im := tyInModel (.struct fs)
+  r := aliasMonitor r s l
   -- monitor first: the load must be a function of the document
   let nd := ["CJ", "CY", "CT"].filter fun k => g k = "nondet"
   if l.obs.any (fun t => t.endsWith "panic") then
@@ -434,10 +497,10 @@ def runCload (r : Report) (s : Section) (l : Line) (fs : Fields) (j : J) : Repor
   if nd ≠ [] then
     r := r.violation s.idx l.idx s!"nondeterministic-load class=case-collision loaders=[{joinSp nd}] the same document loaded repeatedly gives different results doc=[{printTree j}]"
   else
-    r := checkTok r s l "CJ" ("det:" ++ eitherF32 (fun o => printRes (loadJsonDet o fs j)) oc ((obs? l.obs "CJ").map fun x => (x.drop 4).toString))
-    r := checkTok r s l "CY" ("det:" ++ eitherF32 (fun o => printRes (loadYamlDet o fs (embY j))) oc ((obs? l.obs "CY").map fun x => (x.drop 4).toString))
+    r := checkTokM im r s l "CJ" ("det:" ++ eitherF32 (fun o => printRes (loadJsonDet o fs j)) oc ((obs? l.obs "CJ").map fun x => (x.drop 4).toString))
+    r := checkTokM im r s l "CY" ("det:" ++ eitherF32 (fun o => printRes (loadYamlDet o fs (embY j))) oc ((obs? l.obs "CY").map fun x => (x.drop 4).toString))
     let mT := eitherF32 (fun o => let x := tomlFront j (fun t => printRes (loadTomlDet o fs t)); if x = "skip" then x else "det:" ++ x) oc (obs? l.obs "CT")
-    r := checkTok r s l "CT" mT
+    r := checkTokM im r s l "CT" mT
     r := r.addCover ("cload-" ++ classOf ((g "CJ").drop 4).toString)
     if inScope j ∧ (g "CJ" ≠ g "CY" ∨ (g "CT" ≠ "skip" ∧ g "CJ" ≠ g "CT")) then
       r := r.violation s.idx l.idx s!"format-dependent class=format-collision CJ=[{g "CJ"}] CY=[{g "CY"}] CT=[{g "CT"}] doc=[{printTree j}]"
@@ -506,12 +569,16 @@ def runFload (r : Report) (s : Section) (l : Line) (fs : Fields) (ext : String) 
     | some .json => eitherF32 (fun o => printRes (loadJsonO o fs j')) oc (some impl)
     | some .yaml => eitherF32 (fun o => printRes (loadYamlO o fs (embY j'))) oc (some impl)
     | some .toml => eitherF32 (fun o => tomlFront j' (fun t => printRes (loadTomlO o fs t))) oc (some impl)
+  let im := tyInModel (.struct fs)
+  r := aliasMonitor r s l
+  if api = "Bytes" ∧ useEnv then r := r.mismatch s.idx l.idx "Bytes-has-no-options" (joinSp l.op)
   r := r.addCover s!"fload-{api}-{classOf model}"
   r := r.addCover (match loaderOf ext.toList with | none => "fload-unknown-ext" | some f => s!"fload-{repr f}")
   if docHasDollar j then r := r.addCover (if useEnv then "fload-env-expanded" else "fload-env-literal")
-  if impl ≠ model then r := r.mismatch s.idx l.idx model impl
-  let want := if api = "MustLoad" ∧ model.startsWith "ok:" then ["M=same"] else []
-  if l.obs.drop 1 ≠ want then r := r.mismatch s.idx l.idx (joinSp (model :: want)) (joinSp l.obs)
+  if im ∧ impl ≠ model then r := r.mismatch s.idx l.idx model impl
+  if ¬ im then r := r.addCover "outside-model-monitored-only"
+  let want := if api = "MustLoad" ∧ (if im then model else impl).startsWith "ok:" then ["M=same"] else []
+  if dropAL (l.obs.drop 1) ≠ want then r := r.mismatch s.idx l.idx (joinSp (model :: want)) (joinSp l.obs)
   -- monitor: the result on the file is the result of the format's loader on the (un)expanded document
   if impl = "panic" then
     let cls := if printRes (loadJsonO { oc with f32Pinned := true } fs j') = "panic" then "env-float32-pointer" else "panic"
@@ -557,12 +624,24 @@ def runSection (r : Report) (s : Section) : Report := Id.run do
   let mut r := r
   for l in s.lines do
     r := { r with ops := r.ops + 1 }
+    -- **a load is a function of its own arguments**: the same op earlier in this process observed the same
+    if l.op.head? = some "munm" ∨ l.op.head? = some "load" ∨ l.op.head? = some "fload" then
+      let key := joinSp l.op
+      let ob := joinSp (dropAL l.obs)
+      match st.seen.find? (fun p => p.1 = key) with
+      | some p =>
+        r := r.addCover "repeat-same-call-checked"
+        if p.2 ≠ ob ∧ ¬ (ob.splitOn "nondet").length > 1 then
+          r := r.violation s.idx l.idx s!"load-depends-on-earlier-calls class=sequence op=[{key}] first=[{p.2}] now=[{ob}]"
+      | none => st := { st with seen := (key, ob) :: st.seen }
     match l.op with
     | ["type", t] =>
       match parseTyTok t with
       | some fs =>
         st := { fs := some fs }
         r := r.addCover (if plainTy (.struct fs) then "type-plain" else "type-tagged")
+        r := r.addCover (if tyInModel (.struct fs) then "type-in-model" else "type-deep-pointer-outside-model")
+        if tyHasPtrElem (.struct fs) then r := r.addCover "type-pointer-elements"
         if tyHasDotKey (.struct fs) then r := r.addCover "type-dotted-key"
         if envOfTy (.struct fs) ≠ [] then r := r.addCover "type-env-tag"
         if joinSp l.obs ≠ "ok" then r := r.mismatch s.idx l.idx "ok" (joinSp l.obs)
@@ -589,21 +668,34 @@ def runSection (r : Report) (s : Section) : Report := Id.run do
     | ["filldef"] =>
       match st.fs with
       | some fs =>
-        let model := eitherF32 (fun o => printRes ((fillDefaults o fs).map .struct)) { env := envOfTy (.struct fs) } (some (joinSp l.obs))
+        let impl := joinSp (dropAL l.obs)
+        let model := eitherF32 (fun o => printRes ((fillDefaults o fs).map .struct)) { env := envOfTy (.struct fs) } (some impl)
         r := r.addCover ("filldef-" ++ classOf model)
-        if joinSp l.obs ≠ model then r := r.mismatch s.idx l.idx model (joinSp l.obs)
-        if joinSp l.obs = "panic" then
+        r := aliasMonitor r s l
+        if tyInModel (.struct fs) ∧ impl ≠ model then r := r.mismatch s.idx l.idx model impl
+        if impl = "panic" then
           let cls := if printRes ((fillDefaults { env := envOfTy (.struct fs), f32Pinned := true } fs).map .struct) = "panic" then "env-float32-pointer" else "panic"
           r := r.violation s.idx l.idx s!"loader-panicked class={cls} at=FillDefault"
       | none => r := r.mismatch s.idx l.idx "no-type" (joinSp l.obs)
     | ["fload", ext, env, api, _, d] =>
       match st.fs, parseDocTok d with
-      | some fs, some j => r := runFload r s l fs ext (env = "1") api j
+      | some fs, some j =>
+        r := runFload r s l fs ext (env = "1") api j
+        -- the loads of a section are one sequence in one process: which option sets follow each other
+        let e := env = "1"
+        if docHasDollar j then
+          match st.prevEnv with
+          | some true => r := r.addCover (if api = "Bytes" then "seq-bytes-after-UseEnv" else if e then "seq-env-on-after-on" else "seq-env-off-after-on")
+          | some false => r := r.addCover (if e then "seq-env-on-after-off" else "seq-env-off-after-off")
+          | none => pure ()
+        if st.nFload + 1 ≥ 5 then r := r.addCover "seq-five-or-more-loads"
+        st := { st with prevEnv := (if api = "Bytes" then st.prevEnv else some e), nFload := st.nFload + 1 }
       | _, _ => r := r.mismatch s.idx l.idx "bad-fload" d
     | "file" :: _ => r := runFile r s l
     | _ => r := r.mismatch s.idx l.idx "bad-op" (joinSp l.op)
   return r
 
 def driver (secs : List Section) : Report := secs.foldl runSection {}
+
 
 end GoZero.C17
